@@ -93,6 +93,7 @@ type uxfEnv struct {
 	failAt  map[int]bool
 	gates   int32
 	curCat  []int // the request being enqueued (callers are serialised among themselves)
+	dead    bool  // the batch manager panicked
 }
 
 func (e *uxfEnv) snapshot() []bool {
@@ -420,8 +421,8 @@ func (e *uxfEnv) waitParked(maxGates int) bool {
 	deadline := time.Now().Add(uxBound())
 	for {
 		e.lmu.Lock()
-		parked := false
-		for i := len(e.log) - 1; i >= 0; i-- {
+		parked := e.dead
+		for i := len(e.log) - 1; i >= 0 && !parked; i-- {
 			t := e.log[i].typ
 			if t == uxfIdle || t == uxfPanic {
 				parked = true
@@ -470,6 +471,7 @@ func uxfRun(cd *uxChainData, cfg *uxfCfg, id int) (out uxPathOut) {
 			if r := recover(); r != nil {
 				e.lmu.Lock()
 				e.log = append(e.log, uxfEntry{typ: uxfPanic, answered: e.snapshot()})
+				e.dead = true
 				e.lmu.Unlock()
 			}
 		}()
